@@ -101,7 +101,7 @@ inductive Val
   | bytes (b : List Nat)      -- each < 256
   deriving Repr, Inhabited
 
-def hexDigit (n : Nat) : Char := "0123456789abcdef".toList.getD n '?'
+def hexDigit (n : Nat) : Char := (['0', '1', '2', '3', '4', '5', '6', '7', '8', '9', 'a', 'b', 'c', 'd', 'e', 'f'] : List Char).getD n '?'
 /-- `hexlify(value).decode('ascii')` -/
 def hexlify : List Nat → Str
   | [] => []
@@ -109,14 +109,14 @@ def hexlify : List Nat → Str
 
 /-- `Value.__str__` (base class; `PGValue` overrides bool; `SQLiteValue`/`MySQLValue` override only date/time kinds). -/
 def valueStr (d : Dialect) (style : Style) : Val → Str
-  | .none => "null".toList
-  | .bool b => if d = .postgres then (if b then "true".toList else "false".toList) else (if b then ['1'] else ['0'])
+  | .none => ['n', 'u', 'l', 'l']
+  | .bool b => if d = .postgres then (if b then ['t', 'r', 'u', 'e'] else ['f', 'a', 'l', 's', 'e']) else (if b then ['1'] else ['0'])
   | .str s => quoteStrL style s
   | .int i => (toString i).toList
   | .bytes b => 'X' :: '\'' :: (hexlify b ++ ['\''])
 
 /-- `SQLBuilder.MOD`: `' %% ' if builder.paramstyle in ('format', 'pyformat') else ' % '` -/
-def modSymbol (style : Style) : Str := if style.percent then " %% ".toList else " % ".toList
+def modSymbol (style : Style) : Str := if style.percent then [' ', '%', '%', ' '] else [' ', '%', ' ']
 
 /-! ## Database side: lexical rules -/
 
